@@ -5,5 +5,6 @@ From Muscle Require Import Conc.ThreadQ Conc.ThreadQConsts.
 
 (* sizeof(bytes) in Thread::WaitForNextMessageAux, regenerated from /repo on every run *)
 Definition absorb_const : nat := ABS.
+Definition no_limit_const : N := NOLIM.
 
-Extraction "threadq_model.ml" sys_step sys0 is_dp absorb_const s_g s_l ch.
+Extraction "threadq_model.ml" sys_step sys0 is_dp absorb_const no_limit_const s_g s_l ch.
